@@ -139,13 +139,24 @@ func (s *JSONDB) ReadStatusRecent(dagFile string, n int) []*model.StatusFile {
 }
 
 func (s *JSONDB) ReadStatusToday(dagFile string) (*model.Status, error) {
-	file, err := s.latestToday(dagFile, time.Now(), s.latestStatusToday)
+	files, err := s.latestToday(dagFile, time.Now(), s.latestStatusToday)
 	if err != nil {
 		return nil, err
 	}
-	return s.cache.LoadLatest(file, func() (*model.Status, error) {
-		return ParseFile(file)
-	})
+	// The newest file may hold no complete status yet (a run that was killed
+	// right after it was opened); fall back to the next newest run then.
+	var lastErr error
+	for _, file := range files {
+		file := file
+		status, err := s.cache.LoadLatest(file, func() (*model.Status, error) {
+			return ParseFile(file)
+		})
+		if err == nil {
+			return status, nil
+		}
+		lastErr = err
+	}
+	return nil, lastErr
 }
 
 func (s *JSONDB) FindByRequestID(dagFile string, requestID string) (*model.StatusFile, error) {
@@ -285,7 +296,7 @@ func (s *JSONDB) newFile(dagFile string, t time.Time, requestID string) (string,
 	), nil
 }
 
-func (s *JSONDB) latestToday(dagFile string, day time.Time, latestStatusToday bool) (string, error) {
+func (s *JSONDB) latestToday(dagFile string, day time.Time, latestStatusToday bool) ([]string, error) {
 	var pattern string
 	if latestStatusToday {
 		pattern = fmt.Sprintf("%s.%s*.*.dat", escapeGlob(s.prefixWithDirectory(dagFile)), day.Format(dateFormat))
@@ -294,13 +305,13 @@ func (s *JSONDB) latestToday(dagFile string, day time.Time, latestStatusToday bo
 	}
 	matches, err := filepath.Glob(pattern)
 	if err != nil || len(matches) == 0 {
-		return "", persistence.ErrNoStatusDataToday
+		return nil, persistence.ErrNoStatusDataToday
 	}
-	ret := filterLatest(matches, 1)
+	ret := filterLatest(matches, len(matches))
 	if len(ret) == 0 {
-		return "", persistence.ErrNoStatusData
+		return nil, persistence.ErrNoStatusData
 	}
-	return ret[0], nil
+	return ret, nil
 }
 
 func (s *JSONDB) latest(pattern string, n int) []string {
